@@ -52,7 +52,7 @@ TestCorpus == << [name |-> "t1", d |-> [mods |-> D1, order |-> O1, alias |-> 0]]
                  [name |-> "t2", d |-> [mods |-> D2, order |-> O2, alias |-> 0]],
                  [name |-> "t3", d |-> [mods |-> D3, order |-> O3, alias |-> 0]] >>
 
-Mech == {"DevEnumMarkerUnpack", "DevModuleMajorPasses"}
+Mech == {"DevEnumMarkerUnpack", "DevModuleMajorPasses", "DevCompileInPlace"}
 Twice(M, ne1, ne2, S) == View(Compile(Compile(M, ne1, S).m, ne2, S))
 Once(M, ne, S) == View(Compile(M, ne, S))
 Member(M, mi, ti, j) == M[mi].types[ti].node.items[j].ns[1]
@@ -111,6 +111,10 @@ ASSUME LET c == Compile(D2, FALSE, AllDevs)
 ASSUME Twice(D2, FALSE, FALSE, AllDevs) # Once(D2, FALSE, AllDevs)
 ASSUME Twice(D2, FALSE, FALSE, Mech) = Once(D2, FALSE, Mech)
 ASSUME Member(Compile(D2, FALSE, Mech).v[1], 1, 1, 1).def.f = "bits"
+
+\* DevCompileInPlace off: the caller's dictionary is never touched
+ASSUME CompileDict(D1, TRUE, {}).m = D1 /\ CompileDict(D1, TRUE, AllDevs).m # D1
+ASSUME View(CompileDict(D1, TRUE, {})) = View(Compile(D1, TRUE, {}))
 
 \* the model mutants break idempotence and the requirement
 ASSUME PassEI(PassEI(D1, 2, {"MutMarkerEveryRun"}), 2, {"MutMarkerEveryRun"}) # PassEI(D1, 2, {"MutMarkerEveryRun"})
